@@ -6,8 +6,9 @@
     Clauses covered: "parsing any string either returns a tree or raises
     LatexWalkerParseError, never another exception type, and the error's
     position lies inside the input with line and column matching that
-    position".  (The clause about injected structural faults is not part of
-    this file.)
+    position"; and, at the end of the file, the clause about injected
+    structural faults for documents of the core grammar of C02 (PARTIAL: see
+    there).
 
     All theorems hold for EVERY string, EVERY context database (no
     well-formedness condition on the context turned out to be necessary: a
@@ -150,3 +151,168 @@ Print Assumptions C05_no_other_exception.
 Print Assumptions C05_no_other_exception_any_fuel.
 Print Assumptions C05_errors_located_top.
 Print Assumptions C05_error_line_col.
+
+
+(** * Injected structural faults (proofs in [Proofs/Fault*.v])
+
+    Clause: "a well-formed document to which a single unmatched opening or
+    closing brace, math delimiter, \begin or \end has been added outside
+    verbatim text and comments is always rejected".
+
+    PARTIAL.  The documents are those of the CORE grammar of C02
+    ([Doc/DocGrammar.v]: text, braced groups, macro calls with mandatory braced
+    arguments, [$ $] / [\( \)] / [\[ \]] formulas, comments, paragraph breaks;
+    [ok_doc] = its side conditions), ALL of them (unbounded depth and size), ALL
+    contexts.  The insertion point is an ITEM BOUNDARY of an arbitrarily nested
+    body, given by a zipper ([Proofs/FaultZip.v]): [zdoc path l1 l2 dtr] is the
+    document whose innermost designated body is [l1 ++ l2]; its text is
+    [zleft path l1 ++ zright path l2 dtr] ([C05_zdoc_text]) and the token is
+    inserted between the two halves.
+
+    Covered:
+      - [}] inserted in the top-level body or in a formula body, at any depth
+        ([C05_fault_closing_partial]: error "unexpected closing brace" AT the brace);
+      - [\)] / [\]] inserted anywhere except in the body of a formula of the same
+        kind (there it closes the formula), at any depth: error "unexpected
+        closing math delimiter" AT the token;
+      - [\end{x}] inserted anywhere, at any depth: error "unexpected \end" AT the token;
+        in these three cases whatever follows the token is irrelevant
+        ([C05_fault_closing_any_suffix_partial]: the left context and the items
+        before the token are well formed, the rest of the input is arbitrary);
+      - [{] inserted at top level ([C05_fault_opening_partial]): the group
+        swallows the rest, error "closing delimiter not found" located right
+        after the inserted brace, raised when the input ends;
+      - [\(], [\[], [$] inserted at top level in front of items that are also a
+        well-formed formula body (no formula directly among them) and, for [$],
+        not directly in front of another [$]: same error.
+    NOT covered (differential testing only): [}] inserted in a group or macro
+    argument (it closes that construct early; the error is raised at a later
+    closing brace), [\)] / [\]] inside a formula of the same kind, [$] used as a
+    closing delimiter, an opening delimiter inserted inside a nested body or in
+    front of items that contain a formula, [\begin{x}], insertion points inside an
+    item (between the tokens of a macro call, inside whitespace), the grammar
+    beyond the core one. *)
+From PLV Require Import Doc.DocGrammar Proofs.RoundTripTok Proofs.FaultTok Proofs.FaultDoc Proofs.FaultPath
+                        Proofs.FaultClose Proofs.FaultOpen Proofs.FaultZip Proofs.FaultInject.
+
+(** the faulted text is the document's text with the token inserted *)
+Theorem C05_zdoc_text : forall path l1 l2 dtr,
+  unparse (zdoc path l1 l2 dtr) = zleft path l1 ++ zright path l2 dtr.
+Proof. exact zdoc_unparse. Qed.
+
+(** ** A stray closing token.  [stray_text c] is [}], [\)], [\]] or [\end{x}];
+    [stray_wf c]: [c] is not [SMClose MDollar], the environment name is
+    non-empty and made of environment-name characters; [closes_hole (lefts path)
+    c = false]: the token is not the closing delimiter of the innermost
+    construct of the path ([}] in a group or macro argument, [\)] in [\( \)],
+    [\]] in [\[ \]]).  The strict parse fails with an error located exactly at
+    the inserted token, of the collector's raise site for that token
+    ([stray_what]: 2 = unexpected closing brace, 4 = unexpected closing math
+    delimiter, 3 = unexpected [\end]), the reader standing right after it. *)
+Theorem C05_fault_closing_partial : forall cx path l1 l2 dtr c,
+  ok_doc cx (zdoc path l1 l2 dtr) = true -> stray_wf c -> closes_hole (lefts path) c = false ->
+  let q := length (zleft path l1) in
+  exists e,
+    parse_top (zleft path l1 ++ stray_text c ++ zright path l2 dtr) false cx (walker_state cx)
+    = PErr e (q + length (stray_text c))
+    /\ pe_pos e = Some q /\ pe_what e = stray_what c.
+Proof. exact fault_closing_doc. Qed.
+
+(** the same with an ARBITRARY continuation [g]: only the left context
+    ([ok_lpath]: the frames of the nesting path, each with the items before it)
+    and the items [l1] of the innermost body before the token (with optional
+    whitespace [fws] in front of the token) have to be well formed *)
+Theorem C05_fault_closing_any_suffix_partial : forall cx path l1 fws c g,
+  let ps0 := walker_state cx in
+  ok_lpath cx ps0 path (hd_error (unparse_items l1 ++ fws ++ stray_text c)) = true ->
+  ok_items cx (lp_state cx ps0 path) l1 (hd_error (fws ++ stray_text c)) = true ->
+  ws_ok fws = true -> stray_wf c -> closes_hole path c = false ->
+  let q := length (lp_text path) + length (unparse_items l1) + length fws in
+  exists e,
+    parse_top (lp_text path ++ unparse_items l1 ++ fws ++ stray_text c ++ g) false cx ps0
+    = PErr e (q + length (stray_text c))
+    /\ pe_pos e = Some q /\ pe_what e = stray_what c.
+Proof. exact fault_closing. Qed.
+
+(** ** An unmatched opening delimiter at top level: [open_text op] is [{]
+    ([OBrace]) or [$], [\(], [\[] ([OMath k]).  [open_side]: nothing for [{];
+    for a math delimiter, the items after it are also well formed as a formula
+    body and [$] is not directly followed by [$].  The strict parse fails when
+    the input ends (reader at [length s]) with the general-nodes parser's error
+    6 ("stop condition not met": the closing delimiter was not found), located
+    right after the inserted delimiter. *)
+Theorem C05_fault_opening_partial : forall cx l1 l2 dtr op,
+  ok_doc cx {| d_items := l1 ++ l2; d_trail := dtr |} = true -> open_side cx op l2 dtr ->
+  let s := unparse_items l1 ++ open_text op ++ unparse_items l2 ++ dtr in
+  exists e,
+    parse_top s false cx (walker_state cx) = PErr e (length s)
+    /\ pe_pos e = Some (length (unparse_items l1) + length (open_text op)) /\ pe_what e = 6.
+Proof. exact fault_opening_doc. Qed.
+
+(** ** Non-vacuity *)
+Open Scope N_scope.
+
+(** the document [a {b $c \textbf{d e} f$ g} h ]: the designated body is that
+    of [\textbf]'s argument, inside a formula, inside a group; the insertion
+    point is between [d] and [ e] *)
+Definition c05_path : list frame :=
+  [FGrp [Text [] [97]] [32] [] [Text [32] [104]];
+   FMath [Text [] [98]] [32] MDollar [] [Text [32] [103]];
+   FMac [Text [] [99]] [32] [116;101;120;116;98;102] [] [] [] [] [Text [32] [102]]].
+Definition c05_l1 : list item := [Text [] [100]].
+Definition c05_l2 : list item := [Text [32] [101]].
+
+Example C05_fault_closing_nonvacuous :
+  ok_doc default_ctx (zdoc c05_path c05_l1 c05_l2 [32]) = true /\
+  unparse (zdoc c05_path c05_l1 c05_l2 [32])
+  = [97;32;123;98;32;36;99;32;92;116;101;120;116;98;102;123;100;32;101;125;32;102;36;32;103;125;32;104;32] /\
+  (* \) \] \end{zq} are not the closing delimiter of a macro argument: rejected at position 17 *)
+  forallb (fun c =>
+    negb (closes_hole (lefts c05_path) c) &&
+    match parse_top (zleft c05_path c05_l1 ++ stray_text c ++ zright c05_path c05_l2 [32]) false
+                    default_ctx (walker_state default_ctx) with
+    | PErr e p => Nat.eqb p (17 + length (stray_text c)) && Nat.eqb (pe_what e) (stray_what c)
+                  && match pe_pos e with Some q => Nat.eqb q 17 | None => false end
+    | _ => false end) [SMClose MParen; SMClose MBracket; SEnd [122;113]] = true /\
+  (* the brace would close the argument: not covered by the theorem (it is rejected later) *)
+  closes_hole (lefts c05_path) SBrace = true /\
+  (* one level up, in the formula body after [c], the brace is a stray one *)
+  closes_hole (lefts (firstn 2 c05_path)) SBrace = false.
+Proof. vm_compute. repeat split. Qed.
+
+(** the brace in a formula body, with the conclusion evaluated independently *)
+Example C05_fault_closing_brace_instance :
+  let path := firstn 2 c05_path in
+  let l1 := [Text [] [99]] in
+  let l2 := [Mac [32] [116;101;120;116;98;102] [] [Grp [] [Text [] [100]; Text [32] [101]] []]; Text [32] [102]] in
+  ok_doc default_ctx (zdoc path l1 l2 [32]) = true /\
+  unparse (zdoc path l1 l2 [32]) = unparse (zdoc c05_path c05_l1 c05_l2 [32]) /\
+  exists e, parse_top (zleft path l1 ++ stray_text SBrace ++ zright path l2 [32]) false default_ctx
+                      (walker_state default_ctx) = PErr e 8
+            /\ pe_pos e = Some 7%nat /\ pe_what e = 2%nat.
+Proof. vm_compute. repeat split. eexists. repeat split. Qed.
+
+(** [ab {c} $x$ d]: an opening brace / [\(] inserted after [ab]; for [\(] the
+    side condition fails on the rest [ {c} $x$ d] (it contains a formula) but
+    holds in front of [ {c} d] *)
+Example C05_fault_opening_nonvacuous :
+  let l1 := [Text [] [97;98]] in
+  let l2 := [Grp [32] [Text [] [99]] []; Math [32] MDollar [Text [] [120]] []; Text [32] [100]] in
+  let l2' := [Grp [32] [Text [] [99]] []; Text [32] [100]] in
+  ok_doc default_ctx {| d_items := l1 ++ l2; d_trail := [] |} = true /\
+  (exists e, parse_top (unparse_items l1 ++ open_text OBrace ++ unparse_items l2) false default_ctx
+                       (walker_state default_ctx) = PErr e 13 /\ pe_pos e = Some 3%nat /\ pe_what e = 6%nat) /\
+  ok_items default_ctx (ps_enter_math (walker_state default_ctx) (Some (m_open MParen))) l2 None = false /\
+  ok_doc default_ctx {| d_items := l1 ++ l2'; d_trail := [] |} = true /\
+  ok_items default_ctx (ps_enter_math (walker_state default_ctx) (Some (m_open MParen))) l2' None = true /\
+  (exists e, parse_top (unparse_items l1 ++ open_text (OMath MParen) ++ unparse_items l2') false default_ctx
+                       (walker_state default_ctx) = PErr e 10 /\ pe_pos e = Some 4%nat /\ pe_what e = 6%nat).
+Proof.
+  vm_compute. split; [reflexivity|]. split; [eexists; repeat split|]. split; [reflexivity|].
+  split; [reflexivity|]. split; [reflexivity|]. eexists; repeat split.
+Qed.
+
+Print Assumptions C05_zdoc_text.
+Print Assumptions C05_fault_closing_partial.
+Print Assumptions C05_fault_closing_any_suffix_partial.
+Print Assumptions C05_fault_opening_partial.
